@@ -88,7 +88,9 @@ def build_model(spec):
 def initial_state(spec, sites):
     from tenpy.networks.mps import MPS
     rng = np.random.default_rng(spec['seed'])
-    if spec['state'] == 'product' and spec['engine'] not in ('TDVP1',):  # (single-site TDVP can not grow the bonds)
+    variational = spec['engine'] in ('ExpMPO', 'TDExpMPO') and spec.get('compression') == 'variational'
+    # (single-site TDVP and the variational MPO application can not grow the bond dimension of a product state)
+    if spec['state'] == 'product' and spec['engine'] not in ('TDVP1',) and not variational:
         idx = [int(rng.integers(0, s.dim)) for s in sites]
         psi = MPS.from_product_state(sites, idx, bc='finite', dtype=complex, permute=False, unit_cell_width=len(sites))
         vec = np.zeros([s.dim for s in sites], dtype=complex)
@@ -265,12 +267,12 @@ def run_evolution(spec):
                         e1.run()
                     r1 = M.mps_to_dense(e1.psi).reshape(-1)
                     require(np.linalg.norm(r - r1) <= 1e-9 * n0, 'merged-steps-differ', 'N_steps=2 at once vs 2 x N_steps=1: |diff| = %r' % (np.linalg.norm(r - r1) / n0), **tags)
-            if errs[2] > 1e-10:
+            if errs[2] > 1e-9:  # (well above the rounding floor of the dense comparison)
                 order = np.log2(errs[1] / errs[2])
                 require(order >= p - 0.5, 'order', 'errors %r on dt, dt/2, dt/4: observed order %.2f, documented %d' % (errs, order, p), **tags)
                 nontrivial = True
                 classes.append('order-measured')
-            elif errs[1] > 1e-10:
+            elif errs[1] > 1e-9:
                 order = np.log2(errs[0] / errs[1])
                 require(order >= p - 0.6, 'order', 'errors %r on dt, dt/2: observed order %.2f, documented %d' % (errs[:2], order, p), **tags)
                 nontrivial = True
@@ -293,7 +295,7 @@ def run_evolution(spec):
                 r = r / np.linalg.norm(r)
                 errs.append(np.sqrt(max(0., 1 - abs(np.vdot(ex, r)) ** 2)))
             pp = {1: 1, 2: 2, 4: 4, '4_opt': 4}[spec['order']]
-            if errs[1] > 1e-9:
+            if errs[1] > 1e-6:  # sqrt(1 - overlap^2) has a rounding floor of ~ 1.5e-8
                 order = np.log2(errs[0] / errs[1])
                 require(order >= pp - 0.6, 'imag-order', 'errors %r, observed order %.2f, documented %d' % (errs, order, pp), **tags)
             require(errs[1] <= 50 * (tau * nH) ** 2 + 1e-9, 'imag-error-size', '%r' % errs, **tags)
